@@ -236,7 +236,7 @@ class Env:
                 elif n == "exception":
                     if not (isinstance(v, str) and "." in v):
                         why = "exception_name"
-                elif n in ("reason", "traceback", "message"):
+                elif n in ("reason", "traceback", "message", "log_level", "logger"):
                     if not isinstance(v, str):
                         why = "text_field"
                 if why:
@@ -519,6 +519,21 @@ class Runner:
                     env.acts[op["a"] - 1].log(message_type=op["ty"], mf=VAL["mf"], **env.collide())
             elif name == "AddSuccess":
                 env.acts[op["a"] - 1].add_success_fields(**{op["f"]: VAL[op["f"]]})
+            elif name == "StdlibLog":
+                import logging
+                from eliot.stdlib import EliotHandler
+                lg = logging.getLogger("verif.stdlib")
+                if not any(isinstance(h, EliotHandler) for h in lg.handlers):
+                    lg.addHandler(EliotHandler())
+                    lg.propagate = False
+                    lg.setLevel(logging.DEBUG)
+                if op["withexc"]:
+                    try:
+                        raise RuntimeError("for the stdlib logger")
+                    except RuntimeError:
+                        lg.exception("something %s", "failed")
+                else:
+                    lg.warning("plain %s", "record")
             elif name == "LogCall":
                 # a function decorated with log_call (action type "LC"), whose body logs one message
                 res = object()
